@@ -1159,7 +1159,9 @@ func canaryVerdict(r *sim.Record, v *ersView) []V {
 		if p.DeletionTimestamp != nil || p.Annotations[oracle.AnnTemplateHash] != v.rs.Spec.TemplateGeneration {
 			continue
 		}
-		if len(node.Annotations) > 0 {
+		if len(node.Annotations) > 0 || p.Annotations[oracle.AnnNodeHash] != "" {
+			// resources override annotations on the node (now, or when the pod was built): whether the pod still counts
+			// as up to date is C10's business, not decided here
 			return nil
 		}
 		pods = append(pods, p)
